@@ -292,6 +292,8 @@ func optByName(c *CmdDef, name string) *OptDef {
 	return nil
 }
 
+var anyCase = []string{"TRUE", "False", "true", "FALSE", "Yes"}
+
 func valueFor(r *simrt.RNG, o *OptDef) string {
 	if o == nil {
 		return "1"
@@ -457,9 +459,19 @@ func Generate(seed uint64) *Scenario {
 				w := names[r.Intn(len(names))]
 				o := optByName(cur, w)
 				if o != nil && o.Kind <= 1 {
-					sc.Argv = append(sc.Argv, "--"+w)
+					if r.Intn(4) == 0 {
+						// a flag written with an attached value, in whatever case the user likes
+						sc.Argv = append(sc.Argv, "--"+w+"="+anyCase[r.Intn(len(anyCase))])
+					} else {
+						sc.Argv = append(sc.Argv, "--"+w)
+					}
 				} else if r.Intn(2) == 0 {
-					sc.Argv = append(sc.Argv, "--"+w+"="+valueFor(r, o))
+					v := valueFor(r, o)
+					if o != nil && (o.Kind == 2 || o.Kind == 5) && r.Intn(4) == 0 {
+						// the very words a flag would take, given to an option that keeps them verbatim
+						v = anyCase[r.Intn(len(anyCase))]
+					}
+					sc.Argv = append(sc.Argv, "--"+w+"="+v)
 				} else {
 					sc.Argv = append(sc.Argv, "--"+w, valueFor(r, o))
 					if o != nil && (o.Kind == 11 || o.Kind == 12) && r.Intn(2) == 0 {
